@@ -65,7 +65,11 @@ DATES = [b'"15-Jan-2024 10:00:00 +0000"', b'" 1-Jan-2024 00:00:00 -0800"',
          b'"32-Jan-2024 10:00:00 +0000"', b'"15-Foo-2024 10:00:00 +0000"',
          b'"15-Jan-2024 25:00:00 +0000"', b'"15-Jan-2024 10:00:00 +9999"',
          b'"15-Jan-99999 10:00:00 +0000"', b'""', b'"x"',
-         b'"15-Jan-0000 10:00:00 +0000"', b'"29-Feb-2023 10:00:00 +0000"']
+         b'"15-Jan-0000 10:00:00 +0000"', b'"29-Feb-2023 10:00:00 +0000"',
+         b'" 1-Jan-0999 00:00:00 +0000"', b'"01-Jan-0001 00:00:00 +0000"',
+         b'"31-Dec-9999 23:59:59 +1400"', b'"01-Jan-1970 00:00:00 +0000"',
+         b'"31-Dec-1969 23:59:59 -1200"', b'"19-Jan-2038 03:14:08 +0000"',
+         b'"01-Jan-0001 00:00:00 +1400"', b'"31-Dec-9999 23:59:59 -1200"']
 SPECIAL = [b'(', b')', b'{', b'}', b'[', b']', b'"', b'\\', b' ', b'\r',
            b'\n', b'&', b'*', b'%', b'~', b'+', b'\x00', b'\xff', b'\xe9',
            b'{5}', b'{5+}', b'NIL', b'  ', b'\t', b'<', b'>', b'.', b',', b':']
@@ -348,7 +352,9 @@ def gen_sieve_case(rng: random.Random) -> dict:
             line = line[:60000].replace(b'\n', b' ') + b'\r\n'
         lines.append({'line': s(line), 'complete': balanced(line)})
     return {'config': cfg, 'steps': lines, 'family': 'sieve',
-            'state': 'sieve'}
+            'state': 'sieve',
+            'sieve_chunk_seed': rng.getrandbits(32)
+            if rng.random() < 0.3 else None}
 
 
 def run_sieve_inputs(case: dict, trace: bool = False) -> dict:
@@ -367,6 +373,9 @@ def run_sieve_inputs(case: dict, trace: bool = False) -> dict:
                                     seq=world.seq))
     try:
         cl = SieveClient(world, 0)
+        if case.get('sieve_chunk_seed') is not None:
+            import random as _random
+            cl.chunk_rng = _random.Random(case['sieve_chunk_seed'])
         canary = SieveClient(world, 1)
         world.run(0.5, None, [])
         wedged = False
